@@ -176,6 +176,7 @@ def handle (e : Env) (w : Nat) (op : String) (args : List String) (got : String)
     let k' := if v == "dig" then ((k.natAbs % 2 ^ w : Nat) : Int) else k
     some { model := got, spec := [fmtPoint d (mul c p' k')], tags := ["mul." ++ v] }
   | "e2s", [v, p, k, q, m] => do
+    let v := (v.splitOn ".").headD v          -- suffix .p / .q: the result object is an operand; the value is the same
     let p0 ← parsePoint d p
     let q' ← parsePoint d q
     let k ← pI k
